@@ -1,0 +1,5 @@
+//go:build !verif
+
+package soyhtml
+
+func verifUnboundLookup(key string) {}
